@@ -910,6 +910,9 @@ func runUnlockFail(s LeaseScenario) (info LeaseInfo, v *vstat.Violation, exact b
 	judge := func() *vstat.Violation {
 		after, succeeded := 0, 0
 		for _, e := range fa.Events() {
+			if e.Op == "create" && e.Err == nil && e.T.After(unlockedAt) {
+				break // the same Locker has acquired again (Same): what follows are the renewals of its NEW tenure
+			}
 			if e.Op == "cas" && e.T.After(unlockedAt) {
 				after++
 				if e.Err == nil {
